@@ -389,6 +389,20 @@ def check_from_graphs_stereo(prog: Program, res: Result, tier: str) -> None:
              "from the reactant graph, fleeting= from the TS graph")
     K = "StereoCondensedReactionGraph"
     fi = prog.resolve_method(K, "from_graphs")
+    # role names: the graph under construction (returned), the loop variables
+    from ..iso import rename_locals
+    rets_ = {norm(r_.value) for r_ in ast.walk(fi.node)
+             if isinstance(r_, ast.Return) and isinstance(r_.value, ast.Name)}
+    if len(rets_) == 1:
+        fi = rename_locals(fi, {rets_.pop(): "scrg"})
+    table = {}
+    for n in ast.walk(fi.node):
+        if isinstance(n, ast.For) and isinstance(n.target, ast.Name):
+            if norm(n.iter) == "scrg.atoms":
+                table[n.target.id] = "atom"
+            elif norm(n.iter) == "scrg.bonds":
+                table[n.target.id] = "bond"
+    fi = rename_locals(fi, table)
     vals = (None, "A", "B", "C")
     for kind in ("atom", "bond"):
         loops = [n for n in ast.walk(fi.node) if isinstance(n, ast.For)
